@@ -166,6 +166,17 @@ Definition sem (t : fdt) (c : call) : sresp :=
       match tget t fd with
       | None => SRet (RErr (if Z.eqb fd AT_FDCWD then ENOSYS else EBADF))
       | Some d =>
+          if Nat.eqb d P_FDDIR && negb (has flags O_NOFOLLOW) then
+            (* open("<N>") below the fd directory without O_NOFOLLOW: the kernel jumps to the
+               open file the magic-link stands for *)
+            match parse_dec path with
+            | Some n => match tget t n with
+                        | Some target => if has flags O_DIRECTORY && negb (obj_is_dir target) then SRet (RErr ENOTDIR) else SNew target
+                        | None => SRet (RErr ENOENT)
+                        end
+            | None => SRet (RErr ENOENT)
+            end
+          else
           if negb (opath_nofollow flags) || has_slash path || has_nul path then SRet (RErr ENOSYS)
           else match (if Nat.leb PB d then psem_open t (d - PB) path else sem_open d path) with
                | inl o => if has flags O_DIRECTORY && negb (obj_is_dir o) then SRet (RErr ENOTDIR) else SNew o
@@ -198,6 +209,7 @@ Definition sem (t : fdt) (c : call) : sresp :=
              else SRet (RErr ENOSYS))
           else if Nat.eqb o PB then
             (if beq path (b "thread-self") then SNew P_THREAD else SRet (RErr ENOSYS))
+          else if Nat.eqb o P_THREAD && beq path (b "fd") then SNew P_FDDIR
           else if Nat.eqb o P_THREAD then
             match parse_fd path with
             | Some n => match tget t n with
@@ -212,6 +224,15 @@ Definition sem (t : fdt) (c : call) : sresp :=
       match tget t fd with
       | None => SRet (RErr EBADF)
       | Some o => if is_nil path then SRet (RStatx STATX_WANT_MASK (if Nat.leb PB o then PROC_MNT else FS_MNT))
+                  else if Nat.eqb o P_FDDIR then
+                    (* statx(fd-dir, "<N>", AT_SYMLINK_NOFOLLOW): the magic-link itself, a procfs object *)
+                    match parse_dec path with
+                    | Some n => match tget t n with
+                                | Some _ => SRet (RStatx STATX_WANT_MASK PROC_MNT)
+                                | None => SRet (RErr ENOENT)
+                                end
+                    | None => SRet (RErr ENOENT)
+                    end
                   else SRet (RErr ENOSYS)
       end
   | Readlinkat fd path =>
